@@ -3,7 +3,7 @@ import ast
 import re
 
 from ..pymodel import AnalysisError, FuncInfo, parent
-from ..astutil import (expand_names, src, is_name, is_const, const_num, call_name, walk_no_nested, strip_docstring,
+from ..astutil import (canon, expand_names, src, is_name, is_const, const_num, call_name, walk_no_nested, strip_docstring,
                        compare_atoms, enclosing_stmt, calls_in, names_in, assignments_to)
 from ..cfg import cfg_of, ENTRY, EXIT, RAISE
 from . import C02
@@ -186,13 +186,13 @@ def rules(ctx):
                 continue
             for c in ast.walk(t):
                 if isinstance(c, ast.Compare) and len(c.ops) == 1:
-                    f = compare_atoms(c, True)[0]
-                    if f in need:
-                        if all(g.dominates([o], l) for l in logs):
-                            got.add(f)
-                    if f == (ep, '>', sp) or f == (sp, '<', ep):
-                        if all(g.dominates([o], l) for l in logs):
-                            order_guard = True
+                    for f in compare_atoms(c, True):
+                        if f in need:
+                            if all(g.dominates([o], l) for l in logs):
+                                got.add(f)
+                        if f == (ep, '>', sp) or f == (sp, '<', ep):
+                            if all(g.dominates([o], l) for l in logs):
+                                order_guard = True
     for f in sorted(need):
         ctx.inst('R15.4', fn, 'guard %s %s %s' % f, f in got,
                  "raises before any arithmetic" if f in got else
@@ -252,6 +252,7 @@ def rules(ctx):
         defs = [v for s_, v in assignments_to(fn.node, nm) if isinstance(v, ast.AST)]
         ok = False
         for v in defs:
+            v = canon(v)
             if isinstance(v, ast.IfExp) and src(v.test) == prob and const_num(v.orelse) == 0:
                 b = v.body
                 if isinstance(b, ast.BinOp) and isinstance(b.op, ast.Div) and src(b.right) == 'log(%s)' % prob and \
